@@ -62,8 +62,8 @@ Check == done =>
   ELSE LET N == par.N  K == par.K  n == par.n  lo == HypLo(N, K, n)  m == HypMass(N, K, n)  den == Choose(N, n)
            s1 == Mom1(m, lo, Len(m))  s2 == Mom2(m, lo, Len(m))
        IN /\ SumB(m, Len(m)) = den                                                       \* Vandermonde's identity
-          /\ MulS(s1, N) = MulS(den, n * K)                                               \* mean = n K / N
-          /\ N >= 2 => MulS(Sub(Mul(den, s2), Mul(s1, s1)), N * N * (N - 1)) = MulS(Mul(den, den), n * K * (N - K) * (N - n))
+          /\ Mul(s1, FromNat(N)) = Mul(den, FromNat(n * K))                                              \* mean = n K / N
+          /\ N >= 2 => Mul(Sub(Mul(den, s2), Mul(s1, s1)), FromNat(N * N * (N - 1))) = Mul(Mul(den, den), FromNat(n * K * (N - K) * (N - n)))
           /\ LET m2 == HypMass(N, n, K) IN                                                \* the probabilities are symmetric in K and n
              Len(m2) = Len(m) /\ \A i \in 1..Len(m) : Mul(m[i], Choose(N, K)) = Mul(m2[i], den)
 
